@@ -306,7 +306,9 @@ func (c *Conn) GetNextActionFromByte(start int64) *NextActionInfo {
 		ind := sort.Search(len(actions),
 			func(i int) bool { return actions[i].getByte() >= start })
 
-		return c.GetNextActionFromIndex(int64(ind))
+		// The read locks are held already: taking them again (as GetNextActionFromIndex does)
+		// deadlocks as soon as a writer asks for one of them in between.
+		return nextActionFromIndex(actions, int64(ind))
 	}
 
 	return &NextActionInfo{
@@ -329,8 +331,12 @@ func (c *Conn) GetNextActionFromIndex(ind int64) *NextActionInfo {
 	c.Shapes.M[c.Context.URLRegex].RLock()
 	defer c.Shapes.M[c.Context.URLRegex].RUnlock()
 
-	actions := c.Shapes.M[c.Context.URLRegex].Shape.Actions
+	return nextActionFromIndex(c.Shapes.M[c.Context.URLRegex].Shape.Actions, ind)
+}
 
+// nextActionFromIndex returns the first action at or after the index that has a non zero count.
+// The caller holds the locks that protect the actions.
+func nextActionFromIndex(actions []Action, ind int64) *NextActionInfo {
 	if l := int64(len(actions)); l != 0 {
 
 		for ind < l && (actions[ind].getCount() == 0) {
